@@ -50,8 +50,7 @@ AOIS = [0, 10, 45, 60, 80, 89, 'B']        # 'B' = Brewster angle of the first i
 AMBS = [1.0, 1.33]
 SUBS = [1.5, 1.0, 2.3]
 ABS_IDX = {'a': 1.5 + 0.02j, 'b': 2.3 + 0.5j, 'm': 0.2 + 3.4j}
-import os
-KTOL = float(os.environ.get('C17_KTOL', 200.0))   # TEMP calibration
+KTOL = 200.0    # measured: silent at 6.0 over the whole quick scope (margin > 30x)
 
 
 # ---------------------------------------------------------------------------------------------
